@@ -3,7 +3,8 @@ import glob, json, os
 from lib import vlib, deccheck
 
 
-def run_enc_traces(ctx, families, n, cmp_fields, want=("enc", "rt", "dec"), shards=8):
+def run_enc_traces(ctx, families, n, cmp_fields, want=("enc", "rt", "dec"), shards=None):
+    shards = shards or (8 if ctx.tier == "quick" else 32)
     p, _ = ctx.run_harness(["drive-enc", "-out", ctx.tmp, "-shards", str(shards), "-n", str(n),
                             "-families", ",".join(families), "-cmp", ",".join(cmp_fields)], timeout=3000)
     summ = deccheck.summary_of(p)
